@@ -614,6 +614,11 @@ func (s *pSite) registers(ins ssa.Instruction, v ssa.Value) (bool, string) {
 		if cell == nil {
 			return false, ""
 		}
+		if t.Parent() != s.Subscribe {
+			// a subscription opened by a callback: the teardown may already have run when the cell is written, and
+			// a plain cell - unlike Subscription.Add, which releases a late registration at once - then keeps it for ever
+			return false, ""
+		}
 		for f := range reach {
 			for _, b := range f.Blocks {
 				for _, i2 := range b.Instrs {
@@ -755,6 +760,24 @@ func (pc *pCtx) p2Release(s *pSite) {
 	props := []string{"C03", "C14"}
 	assume, hasAssume := pc.annotated(s.Name, "assume-released")
 	idx := map[string]int{}
+	// an operator over several sources (two subscriptions, or one made per value of an outer source) also owes the
+	// release to C05: the end of the output releases the other sources
+	nsubs := 0
+	for _, fn := range s.Closures {
+		for _, b := range fn.Blocks {
+			for _, ins := range b.Instrs {
+				if call, ok := ins.(*ssa.Call); ok && call.Common().IsInvoke() && strings.HasPrefix(call.Common().Method.Name(), "Subscribe") && hasMethod(call.Common().Value.Type(), "SubscribeWithContext") {
+					nsubs++
+					if fn != s.Subscribe || inLoop(call) {
+						nsubs++
+					}
+				}
+			}
+		}
+	}
+	if nsubs >= 2 {
+		props = append(props, "C05")
+	}
 	for _, fn := range s.Closures {
 		role := s.role(fn)
 		for _, b := range fn.Blocks {
@@ -794,7 +817,11 @@ func (pc *pCtx) p2Release(s *pSite) {
 					ok2 = true
 					why = "assumed: " + assume
 				}
-				pc.add(props, name, "every "+kind+" opened by the subscribe function is released by what it returns or registers (or is waited for)", ok2, why, pc.pos(ins.Pos()))
+				oprops := props
+				if kind == "timer" {
+					oprops = append(append([]string{}, props...), "C16") // a time-driven operator falls silent when it is told to stop
+				}
+				pc.add(oprops, name, "every "+kind+" opened by the subscribe function is released by what it returns or registers (or is waited for)", ok2, why, pc.pos(ins.Pos()))
 			}
 		}
 	}
